@@ -1,10 +1,10 @@
 #!/bin/bash
 # Seed sweep: every check at the given tier for several VERIF_SEED values; prints one line per check and seed.
-# usage: tools/soak.sh <tier> <seed>...
+# usage: [PROPS="C14 C15"] tools/soak.sh <tier> <seed>...
 tier=$1; shift
 cd "$(dirname "$0")/.."
 for seed in "$@"; do
-  for p in $(python3 -c "import json; c=json.load(open('checks.json')); print(' '.join(sorted(k for k in c if 'reports_as' not in c[k])))"); do
+  for p in ${PROPS:-$(python3 -c "import json; c=json.load(open('checks.json')); print(' '.join(sorted(k for k in c if 'reports_as' not in c[k])))")}; do
     s=$(date +%s)
     out=$(VERIF_SEED=$seed bin/check $p --tier $tier --no-evidence 2>&1); rc=$?
     echo "seed=$seed $p rc=$rc $(( $(date +%s)-s ))s $(echo "$out" | grep '^VIOLATION\|^INFRA\|^violation' | head -3 | cut -c1-200 | tr '\n' ' ')"
